@@ -32,6 +32,7 @@ type Engine struct {
 	loadErrors    []string
 	tiBin         string
 	modPkgs       []string
+	transparent   map[string]bool // abstract predicates being expanded (footprint probing)
 	orderSkip     map[string]string
 }
 
@@ -151,6 +152,15 @@ func (e *Engine) verifyFunc(name string, forceSafety bool) (res *FuncResult) {
 	te := newTypeEnv(sc)
 	he := newHeapEnv(sc, te)
 	vc := &VC{eng: e, sc: sc, te: te, he: he, top: fn, counters: map[string]int{}, grefs: map[string]int{}}
+	if e.transparent == nil {
+		e.transparent = map[string]bool{}
+	}
+	currentTopPkg = ""
+	if fn.Pkg != nil {
+		currentTopPkg = fn.Pkg.Pkg.Path()
+	} else if fn.Parent() != nil && fn.Parent().Pkg != nil {
+		currentTopPkg = fn.Parent().Pkg.Pkg.Path()
+	}
 	vc.contract = e.contracts[name]
 	vc.safety = forceSafety || (vc.contract != nil && vc.contract.Safe)
 	res.Script = sc
@@ -220,12 +230,13 @@ func (e *Engine) verifyFunc(name string, forceSafety bool) (res *FuncResult) {
 		}
 	}
 	f.run("true")
-	if vc.contract != nil && len(f.rets) > 0 {
+	if vc.contract != nil && len(f.rets) > 0 && len(vc.contract.Ensures) > 0 {
+		// (only meaningful when there are postconditions that an unreachable return would make vacuous)
 		var conds []string
 		for _, r := range f.rets {
 			conds = append(conds, r.cond)
 		}
-		ob := &Obligation{Name: name + "/vacuity:return#0", Kind: "vacuity", Func: name, Goal: or(conds...), Cover: true, Claimed: true, Desc: "a return is reachable under the preconditions"}
+		ob := &Obligation{Name: name + "/vacuity:return#0", Kind: "vacuity", Func: name, Goal: or(conds...), Alts: conds, Cover: true, Claimed: true, Desc: "a return is reachable under the preconditions"}
 		sc.oblige(ob)
 	}
 	return
